@@ -742,3 +742,50 @@ Definition witness_table : table :=
 Lemma srs_preseeded_refuted : exists t d, table_ok t /\ create_tables empty_db [t] = Ok d /\
   find_srs (s_id (t_srs t)) (db_srs d) <> Some (t_srs t).
 Proof. exists witness_table. eexists. split; [split; reflexivity|]. split; [reflexivity|]. cbn. discriminate. Qed.
+
+(** ** 9. Writing to one table never touches another (no side condition on the stream) *)
+
+Lemma insert_rows_desc : forall t fs ts ts', foldM (insert_row t) fs ts = Ok ts' -> ts_desc ts' = ts_desc ts.
+Proof.
+  intros t fs; induction fs as [|f fs IH]; intros ts ts' H; cbn [foldM] in H; [now injection H as <-|].
+  destruct (insert_row t ts f) as [ts1|] eqn:E; [|discriminate]. cbn [bind] in H.
+  rewrite (IH _ _ H). unfold insert_row in E.
+  destruct (negb (geom_known (f_geom f))); [discriminate|].
+  destruct (negb (has_col (t_gcol t) (t_cols t))); [discriminate|].
+  destruct (weave (t_cols t) (t_gcol t) (f_attrs f) (f_geom f)); [|discriminate].
+  now injection E as <-.
+Qed.
+
+Lemma flush_other : forall t d fs d' m, flush t d fs = Ok d' -> m <> t_name t ->
+  find_tab m (db_tabs d') = find_tab m (db_tabs d).
+Proof.
+  intros t d fs d' m H Hm. unfold flush in H.
+  destruct (find_tab (t_name t) (db_tabs d)) as [ts|] eqn:Ef; [|discriminate].
+  destruct (foldM (insert_row t) fs ts) as [ts1|] eqn:Ei; [|discriminate]. cbn [bind] in H.
+  injection H as <-. cbn [db_tabs]. apply find_replace_other; [|exact Hm].
+  unfold tab_name; cbn [ts_desc]. rewrite (insert_rows_desc _ _ _ _ Ei). apply (find_tab_name _ _ _ Ef).
+Qed.
+
+Lemma recv_other : forall w f w' m, recv w f = Ok w' -> m <> t_name (w_table w) ->
+  w_table w' = w_table w /\ w_p w' = w_p w /\ find_tab m (db_tabs (w_db w')) = find_tab m (db_tabs (w_db w)).
+Proof.
+  intros w f w' m H Hm. unfold recv in H. destruct (w_p w =? 0); [discriminate|].
+  destruct (Z.rem (Z.of_nat (List.length (w_buf w ++ [f]))) (w_p w) =? 0).
+  - destruct (flush (w_table w) (w_db w) (w_buf w ++ [f])) as [d1|] eqn:E; [|discriminate]. cbn [bind] in H.
+    injection H as <-. cbn. repeat split. eapply flush_other; eauto.
+  - injection H as <-. cbn. repeat split.
+Qed.
+
+Lemma write_features_other : forall p t d fs d' m, write_features p t d fs = Ok d' -> m <> t_name t ->
+  find_tab m (db_tabs d') = find_tab m (db_tabs d).
+Proof.
+  intros p t d fs d' m H Hm. unfold write_features in H.
+  assert (G : forall fs w, w_table w = t ->
+            (do w' <- foldM recv fs w; close w') = Ok d' -> find_tab m (db_tabs d') = find_tab m (db_tabs (w_db w))).
+  { clear H. induction fs0 as [|f fs0 IH]; intros w Hw H; cbn [foldM bind] in H.
+    - unfold close in H. rewrite Hw in H. eapply flush_other; eauto.
+    - destruct (recv w f) as [w1|] eqn:E; [|discriminate]. cbn [bind] in H.
+      destruct (recv_other _ _ _ m E) as [H1 [_ H3]]; [now rewrite Hw|].
+      rewrite <- H3. apply IH; [congruence|exact H]. }
+  apply (G fs (MkWriter p t [] d)); [reflexivity|exact H].
+Qed.
